@@ -1,13 +1,12 @@
 import Frp.Driver.Proto
-import Frp.Engines.Router
+import Frp.Engines.All
 /-
   frpmodel <engine> : reads trace lines `op … => implResult` on stdin, prints one verdict per line
   (`ok` | `skip …` | `DIFF model=… prop=…` | `BAD …`) and a final `SUMMARY` line.
 -/
 open Frp Proto
 
-def engines : List (String × Engine) :=
-  [ ("router", Engines.router) ]
+def engines : List (String × Engine) := Engines.all
 
 structure Counts where
   ok : Nat := 0
